@@ -92,7 +92,8 @@ func (config Config) New(session *packet.Session) (h *Handler, err error) {
 	if !config.NetfilterIP.IsValid() {
 		return nil, fmt.Errorf("netfilter prefix NetfilterIP=%s is invalid: %w", config.NetfilterIP, packet.ErrInvalidIP)
 	}
-	if !session.NICInfo.HomeLAN4.Contains(config.NetfilterIP.Addr()) {
+	// the netfilter subnet must lie inside the home LAN: its address in it, its prefix not wider
+	if !session.NICInfo.HomeLAN4.Contains(config.NetfilterIP.Addr()) || config.NetfilterIP.Bits() < session.NICInfo.HomeLAN4.Bits() {
 		return nil, fmt.Errorf("netfilter ip=%s does not exist in home net=%s: %w", config.NetfilterIP, session.NICInfo.HomeLAN4, packet.ErrInvalidIP)
 	}
 
